@@ -1559,7 +1559,16 @@ def _s_lower(it, v, a, k):
 def _s_split(it, v, a, k):
     if len(a) != 1:
         raise Unsupported("split()")
-    return Py.list(str_split(Py.s(v), Py.s(T(it, a[0]))))
+    r = str_split(Py.s(v), Py.s(T(it, a[0])))
+    # library fact: str.split returns at least one piece and every piece is a str
+    it.assume(z3.Length(r) >= 1)
+    if not any(z3.eq(q, r) and f is IS_STR_ELEM for q, f in getattr(it, "elem_facts", [])):
+        it.elem_facts = getattr(it, "elem_facts", []) + [(r, IS_STR_ELEM)]
+    return Py.list(r)
+
+
+def IS_STR_ELEM(e):
+    return Py.is_str(e)
 
 
 def _s_join(it, v, a, k):
